@@ -25,7 +25,7 @@ def run(rep):
     thorough = rep.tier == 'thorough'
     budget = 900_000 if thorough else 150_000      # TLC refuses to build sets of more than 1 000 000 elements
     jobs = P.corpus_jobs(rep.seed, 150 if thorough else 24, 'c01', 'verdict', orders=8 if thorough else 2, max_steps=200,
-                         systematic=True)
+                         systematic=True, default_too=True)
     outs = P.run_jobs(jobs, 'c01')
     by_arg = {}
     nproofs = 0
